@@ -26,6 +26,7 @@ ONE_M: Mono = ()
 # atom properties consulted by the algebra (filled by the engine's registry)
 IDEMPOTENT: set = set()          # indicator atoms: a*a == a
 CONST_SQUARE: Dict[int, Fraction] = {}   # atoms v with v*v == q (q rational constant)
+SQUARE_RULES: Dict[int, "Poly"] = {}     # atoms a with a*a == polynomial in earlier atoms (sqrt of a polynomial, sin of an angle)
 POSITIVE: set = set()            # atoms known > 0
 NONNEG: set = set()              # atoms known >= 0
 
@@ -33,6 +34,7 @@ NONNEG: set = set()              # atoms known >= 0
 def reset_atom_props():
     IDEMPOTENT.clear()
     CONST_SQUARE.clear()
+    SQUARE_RULES.clear()
     POSITIVE.clear()
     NONNEG.clear()
 
@@ -321,3 +323,55 @@ def p_sign(a: Poly) -> Optional[int]:
     if strict:
         return sgn
     return 2 * sgn
+
+
+def p_reduce(a: Poly, limit: int = 20000) -> Poly:
+    """rewrite a**(2k+r) -> rule[a]**k * a**r for every atom with a square rule (equivalence preserving:
+    the rule is the atom's definition).  Rules are triangular (rule[a] only mentions earlier atoms), so this
+    terminates; highest atoms are eliminated first."""
+    if not SQUARE_RULES or not a:
+        return a
+    cur = a
+    for at in sorted(SQUARE_RULES, reverse=True):
+        rule = SQUARE_RULES[at]
+        need = False
+        for m in cur:
+            for x, e in m:
+                if x == at and e >= 2:
+                    need = True
+                    break
+            if need:
+                break
+        if not need:
+            continue
+        out: Poly = {}
+        cache = {}
+        for m, c in cur.items():
+            e = 0
+            rest = []
+            for x, ex in m:
+                if x == at:
+                    e = ex
+                else:
+                    rest.append((x, ex))
+            if e < 2:
+                v = out.get(m)
+                nv = c if v is None else v + c
+                if nv:
+                    out[m] = nv
+                elif m in out:
+                    del out[m]
+                continue
+            k, r = divmod(e, 2)
+            pk = cache.get(k)
+            if pk is None:
+                pk = cache[k] = p_pow(rule, k)
+            restm = tuple(rest)
+            if r:
+                _, restm = mono_mul(restm, ((at, 1),))
+            term = p_mul({restm: c}, pk)
+            out = p_add(out, term)
+            if len(out) > limit:
+                return a
+        cur = out
+    return cur
